@@ -7,7 +7,13 @@ use vcore::{Cfg, Value, json};
 pub const TEXT: [char; 7] = ['a', '_', '1', 'é', '漢', '𝄞', '\u{301}'];
 
 /// (kind, program with `□` where the text goes)
-pub const POSITIONS: [(&str, &str); 44] = [
+pub const POSITIONS: [(&str, &str); 49] = [
+    // positions whose text is cited by a type error close to the end of the file
+    ("cited:string-literal", "fn f() -> i32 { \"□\" }"),
+    ("cited:char-literal", "fn f() -> i32 { '□' }"),
+    ("cited:field-name", "fn f(r: { a: i32 }) -> i32 { r.a□ }"),
+    ("cited:undefined-call", "fn f() { a□() }"),
+    ("cited:record-literal", "fn f() -> i32 { { a□: 1 } }"),
     // identifiers
     ("ident:let-binding", "fn f() { let □ = 1; }"),
     ("ident:use", "fn f() -> i32 { □ }"),
